@@ -521,7 +521,9 @@ def makeevenCIJ(n, k, sz_cl, seed=None):
         print("Warning: n must be a power of 2")
     n = Nlvl
 
-    # create hierarchical template
+    # create hierarchical template (for mx_lvl == 1 it is the initial block)
+    s = 2
+    CIJ = t.copy()
     for lvl in range(1, mx_lvl):
         s = 2**(lvl + 1)
         CIJ = np.ones((s, s))
@@ -589,6 +591,8 @@ def makefractalCIJ(mx_lvl, E, sz_cl, seed=None):
     n = 2**mx_lvl
     sz_cl -= 1
 
+    s = 2
+    CIJ = t.copy()
     for lvl in range(1, mx_lvl):
         s = 2**(lvl + 1)
         CIJ = np.ones((s, s))
